@@ -4,6 +4,7 @@ import (
 	"encoding/json"
 	"fmt"
 	"github.com/woodsbury/jmespath"
+	"math/big"
 	"sort"
 	"strconv"
 	"strings"
@@ -314,6 +315,78 @@ func genC20(tier, out string, sum *Summary) {
 			c.emit(e, doc, o, hasEnum(e))
 		}
 	}
+	// the laws on fixed triples: numbers beyond the range of the decimal format (different values are never equal,
+	// whatever a conversion makes of them) and Go slices that share memory (a prefix of an array is not the array)
+	{
+		ratOf := func(v any) *big.Rat {
+			if n, ok := v.(json.Number); ok {
+				if r, ok := new(big.Rat).SetString(string(n)); ok {
+					return r
+				}
+			}
+			return nil
+		}
+		laws := func(what string, vals []any, equal func(x, y any) (bool, bool)) {
+			for _, x := range vals {
+				for _, y := range vals {
+					for _, z := range vals {
+						doc := map[string]any{"x": x, "y": y, "z": z, "l": []any{y, z}}
+						b := func(e string) (bool, bool) { return boolOf(search(e, doc)) }
+						xy, ok1 := b("x == y")
+						yx, ok2 := b("y == x")
+						yz, ok3 := b("y == z")
+						xz, ok4 := b("x == z")
+						ne, ok5 := b("x != y")
+						xx, ok6 := b("x == x")
+						cn, ok7 := b("contains(l, x)")
+						ar, ok8 := b("[x, y] == [y, x]")
+						ob, ok9 := b("{p: x} == {p: y}")
+						sum.count(what)
+						fail := func(msg string) { sum.direct("equality", msg, doc, msg) }
+						if !(ok1 && ok2 && ok3 && ok4 && ok5 && ok6 && ok7 && ok8 && ok9) {
+							fail("== , != or contains did not return a boolean")
+							continue
+						}
+						if !xx {
+							fail("x == x is false")
+						}
+						if xy != yx {
+							fail("x == y differs from y == x")
+						}
+						if xy && yz && !xz {
+							fail("x == y and y == z but not x == z")
+						}
+						if ne == xy {
+							fail("x != y is not the negation of x == y")
+						}
+						if cn != (xy || xz) {
+							fail("contains(l, x) disagrees with == on the members")
+						}
+						if ar != xy || ob != xy {
+							fail("containers of x and y compare differently from x and y")
+						}
+						if want, known := equal(x, y); known && want != xy {
+							fail(fmt.Sprintf("x == y is %v for %s and %s", xy, toJSON(x), toJSON(y)))
+						}
+					}
+				}
+			}
+		}
+		big1 := []any{json.Number("1e7000"), json.Number("2e7000"), json.Number("-1e7000"), json.Number("3e9000"), json.Number("0"), json.Number("1"), "1e7000", json.Number("1e6144"), nil}
+		laws("beyond-range", big1, func(x, y any) (bool, bool) {
+			rx, ry := ratOf(x), ratOf(y)
+			if rx == nil || ry == nil {
+				return false, jsonType(x) != jsonType(y)
+			}
+			if rx.Cmp(ry) != 0 {
+				return false, true
+			}
+			return true, toJSON(x) == toJSON(y)
+		})
+		all := []any{json.Number("1"), json.Number("2"), json.Number("3")}
+		nested := []any{all, all[:2], "s"}
+		laws("shared-memory", []any{all, all[:2], all[:1], all[:0], []any{json.Number("1"), json.Number("2")}, all[1:], nested, nested[:2], []any{all[:2], all[:2]}, []any{all, all[:2]}}, func(x, y any) (bool, bool) { return sameValue(x, y, false), true })
+	}
 	c.sh.Flush()
 	sum.Cases = c.sh.total
 	sum.Shards = c.sh.files
@@ -536,6 +609,68 @@ func genC18(tier, out string, sum *Summary) {
 			}
 		}
 	}
+	closed := func(e string, doc any, o Obs) {
+		if o.Kind != "val" {
+			return
+		}
+		if ok, why := plainResult(o.Value); !ok {
+			sum.direct("closure", e, doc, "result contains a value of Go type "+why)
+		}
+		if t, bad := badNumberIn(o.Value); bad {
+			sum.direct("closure", e, doc, fmt.Sprintf("the result holds the number %q, which is not the text of a JSON number", t))
+		}
+		b, err := json.Marshal(o.Value)
+		if err != nil {
+			sum.direct("closure", e, doc, "result does not serialise: "+err.Error())
+			return
+		}
+		if o2 := search("@", o.Value); !sameObs(o2, o, false) {
+			sum.direct("closure", e, doc, "the result is not acceptable as input: "+describe(o2))
+		}
+		if !sameValue(jsonDoc(string(b)), o.Value, false) {
+			sum.direct("closure", e, doc, "serialising and decoding the result changes it: "+string(b))
+		}
+	}
+	// strings that are nearly numbers, converted: the result is a JSON number or null, never anything else
+	for _, x := range numberish(tier) {
+		for _, e := range []string{"to_number(@)", "[to_number(@), type(to_number(@))]", "{n: to_number(@)}", "to_number(@) | [@, @ == @]", "map(&to_number(@), [@, @])", "to_number(@) || 'none'"} {
+			o := search(e, x)
+			sum.count("numberish/" + o.Kind)
+			closed(e, x, o)
+		}
+		if !strings.ContainsAny(x, "'\\") {
+			e := "to_number('" + x + "')"
+			closed(e, nil, search(e, nil))
+		}
+	}
+	// a built-in that reorders or rebuilds an array, handed a value that may still be the document's own array,
+	// between two reads of the original: every read sees the same document; two searches = one piped search
+	for di, d := range aliasDocs {
+		if tier != "thorough" && di >= 2 {
+			break
+		}
+		for _, e := range aliasExprs() {
+			doc := jsonDoc(d)
+			before := toJSON(doc)
+			text := unparse(e)
+			o := search(text, doc)
+			sum.count("alias/" + o.Kind)
+			c.emit(e, doc, o, false)
+			closed(text, doc, o)
+			if toJSON(doc) != before {
+				sum.direct("requery", text, jsonDoc(d), "the search changed the document to "+toJSON(doc))
+			}
+			if e.K == KPipe && o.Kind == "val" {
+				o1 := search(unparse(e.L), doc)
+				if o1.Kind == "val" {
+					o2 := search(unparse(e.Rt), o1.Value)
+					if !sameObs(o2, o, false) {
+						sum.direct("requery", text, doc, fmt.Sprintf("searching e2 over the result of e1 gives %s but e1 | e2 gives %s", describe(o2), describe(o)))
+					}
+				}
+			}
+		}
+	}
 	c.sh.Flush()
 	sum.Cases = c.sh.total
 	sum.Shards = c.sh.files
@@ -700,6 +835,45 @@ func genC15(tier, out string, sum *Summary) {
 			if !sameObs(first, o, false) {
 				sum.direct("determinism", e, hdoc, fmt.Sprintf("first evaluation gives %s, a later one gives %s", describe(first), describe(o)))
 				break
+			}
+		}
+	}
+	// an outcome does not depend on which evaluations came before it in the process: evaluations that fail half way
+	// (a binding, an element, a member) leave nothing behind that a later evaluation could see
+	{
+		poisons := []string{"let $p = 'stale', $q = 'stale', $r = 'stale', $bad = abs(name) in $p", "let $p = 'stale' in abs(name)", "{a: let $p = 'stale', $bad = $undefined in $p}", "items[*].[let $p = name, $q = abs(name) in $p]",
+			"let $p = 'stale', $q = 'stale' in let $r = 'stale', $bad = `1` / `0` in $r", "let $c = 'stale', $p = $undefined in $c", "items[?let $p = name, $bad = abs(name) in $p]", "let $p = 'ok', $q = 'ok', $r = 'ok' in [$p, $q, $r]",
+			"map(&(let $p = @, $bad = abs(@) in $p), ['a', 'b'])", "sort_by(items, &(let $p = name, $bad = abs(name) in $p))"}
+		probes := []struct {
+			e    string
+			want string // a category, or "=" + JSON
+		}{{"let $c = name in $p", "CUndefinedVariable"}, {"let $c = name in [$c, $q]", "CUndefinedVariable"}, {"$p", "CUndefinedVariable"}, {"let $x = `1` in $r", "CUndefinedVariable"}, {"let $p = name in $p", `="x"`},
+			{"let $c = name in $c", `="x"`}, {"items[*].[let $z = name in $bad]", "CUndefinedVariable"}, {"let $a = `1` in let $b = `2` in [$a, $b]", `=[1,2]`}, {"let $q = name in {a: $q, b: not_null($q, $q)}", `={"a":"x","b":"x"}`}}
+		rounds := 40
+		if tier == "thorough" {
+			rounds = 400
+		}
+		for r := 0; r < rounds; r++ {
+			for _, ps := range poisons {
+				search(ps, hdoc)
+				if r%3 == 0 {
+					search(ps, rebuild(hdoc))
+				}
+				for _, pb := range probes {
+					o := search(pb.e, hdoc)
+					sum.count("history")
+					ok := false
+					if strings.HasPrefix(pb.want, "=") {
+						ok = o.Kind == "val" && toJSON(o.Value) == pb.want[1:]
+					} else {
+						ok = o.Kind == "err" && len(o.Cats) == 1 && o.Cats[0] == pb.want
+					}
+					if !ok {
+						sum.direct("determinism", pb.e, hdoc, fmt.Sprintf("after evaluating %q the outcome is %s; alone it is %s", ps, describe(o), pb.want))
+						r = rounds
+						break
+					}
+				}
 			}
 		}
 	}
